@@ -61,3 +61,9 @@ Example c02_example :
   ups (snd (feed rx_init [firstn 5 s; skipn 5 s])) = [[0x7E]; []]
   /\ ups (snd (ref_run ref_init s)) = [[0x7E]; []].
 Proof. vm_compute. split; reflexivity. Qed.
+
+(* the unstuffing step of the receive path is the function the source text defines now
+   (gen/GenAshFn.v, emitted from the Python AST of AshProtocol._unstuff_bytes on every run) *)
+Require Import BV.gen.GenAshFn BV.proofs.AshSrc_proofs.
+Theorem c02_source_unstuff : forall d, py_unstuff_bytes d = unstuff d.
+Proof. exact src_unstuff. Qed.
